@@ -395,6 +395,10 @@ func ruleL1(c *Ctx) {
 				c.except(key, pos, r)
 				return
 			}
+			if capturesCell(call) {
+				c.except(key, pos, l1Exceptions["(*internal/compile.fcomp).function: emit LOCAL"])
+				return
+			}
 			c.viol(key, pos, fmt.Sprintf("fallible instruction %s may be emitted without a source position (%s): a failure of this operation would be reported at the position of an earlier instruction", label, bad))
 		})
 	}
@@ -1101,4 +1105,42 @@ func forwardedParam(fn *ssa.Function, opv ssa.Value) (*ssa.Parameter, bool) {
 		}
 	}
 	return nil, false
+}
+
+// capturesCell recognises the one deliberate unpositioned LOCAL: pushing the
+// enclosing function's cell for a free variable of a nested function - the
+// operand is the Index of a *resolve.Binding whose Scope was just tested.
+func capturesCell(call *ssa.Call) bool {
+	if len(call.Call.Args) < 3 {
+		return false
+	}
+	fromBinding := func(v ssa.Value, field string) bool {
+		for i := 0; i < 4; i++ {
+			switch x := v.(type) {
+			case *ssa.Convert:
+				v = x.X
+				continue
+			case *ssa.ChangeType:
+				v = x.X
+				continue
+			case *ssa.UnOp:
+				if fa, ok := x.X.(*ssa.FieldAddr); ok {
+					o, f := ownerField(fa)
+					return o == "resolve.Binding" && f == field
+				}
+			}
+			return false
+		}
+		return false
+	}
+	if !fromBinding(call.Call.Args[2], "Index") {
+		return false
+	}
+	for _, pc := range pathConds(call.Block()) {
+		cond, _ := stripNot(pc.If.Cond)
+		if bo, ok := cond.(*ssa.BinOp); ok && bo.Op == token.EQL && fromBinding(bo.X, "Scope") {
+			return true
+		}
+	}
+	return false
 }
